@@ -560,11 +560,45 @@ class Builder:
                 self.features.add("dep-same-basename")
             elif r.random() < 0.5:
                 self.dep_package("fab.baz", "other", "Fab")
-        self.skeleton(fl.get("nfiles") or r.choice([1, 2, 2, 3]))
+        # a target file whose base name equals that of a file of ANOTHER package it takes a type from: a dependency (_pb2)
+        # file, or a proto-plus file of a proto sub-package.  Only the package tells the two imports apart.
+        same_dep = None
+        names = ["res", "extra", "main"]
+        if fl.get("same_basename_dep", r.random() < 0.12):
+            cands = [("struct", ".google.protobuf.Struct", "google/protobuf/struct.proto"),
+                     ("duration", ".google.protobuf.Duration", "google/protobuf/duration.proto"),
+                     ("operations", ".google.longrunning.Operation", "google/longrunning/operations.proto"),
+                     ("status", ".google.rpc.Status", "google/rpc/status.proto")]
+            if any(f.proto.name == "foo/bar/common.proto" for f in self.dep_files):
+                cands += [("common", ".foo.bar.FooThing", "foo/bar/common.proto")] * 3
+            same_dep = r.choice(cands)
+            names[0] = same_dep[0]
+        sub = fl.get("subpackage", r.random() < 0.12)
+        if sub:
+            self.skeleton(1, pkg=TARGET + ".sub", dirn=TARGET_DIR + "/sub", names=(names[0],))
+            self.features.add("proto-sub-package")
+        self.skeleton(fl.get("nfiles") or r.choice([1, 2, 2, 3]), names=tuple(names))
         for t in list(self.types):
             if t["kind"] == "m" and not t.get("dep"):
                 f = next(x for x in self.files if x.proto.name == t["file"])
                 self.fill(t["node"], f)
+        root0 = self.files[1] if sub else self.files[0]
+        tops0 = [t for t in self.types if t["kind"] == "m" and t["file"] == root0.proto.name and t["depth"] == 0]
+        if same_dep and tops0:
+            node = r.choice(tops0)["node"]
+            root0.dep(same_dep[2])
+            if r.random() < 0.5:
+                node.field("ext_ref", 900, same_dep[1], repeated=r.random() < 0.3)
+            else:
+                node.map_field("ext_map", 901, r.choice(MAP_KEY_SCALARS), same_dep[1])
+            self.features.add("same-basename-dependency-file")
+        if sub and tops0:
+            subs = [t for t in self.types if t["file"] == self.files[0].proto.name and t["kind"] == "m"]
+            if subs:
+                node = r.choice(tops0)["node"]
+                root0.dep(self.files[0].proto.name)
+                node.field("sub_ref", 910, r.choice(subs)["fqn"], repeated=r.random() < 0.3)
+                self.features.add("same-basename-sub-package-file")
         if len(self.files) > 1 and fl.get("module_named_field", r.random() < 0.35):
             self.module_named_field()
         if fl.get("pb2_clash"):
